@@ -398,6 +398,8 @@ package pfcp
 //@   ensures [frameok]  forall t *Sess :: old(allocated(t)) && old(sessOK(t)) && t != s && t.LocalID != s.LocalID ==> sessOK(t)
 //@   ensures [node]  old(s.rnode.local != nil && nodeInv(s.rnode.local) && inSlot(s.rnode.local, s)) ==> nodeInv(s.rnode.local)
 //@   ensures [dp]    DP == old(DP)
+//@   ensures [refadd] err == nil ==> (forall p uint16; u uint32 :: old(p in s.PDRIDs) && u in s.URRIDs && u in s.PDRIDs[p].RelatedURRIDs && !(u in old(s.PDRIDs[p].RelatedURRIDs)) ==>
+//@                       s.URRIDs[u].refPdrNum == old(s.URRIDs[u].refPdrNum) + 1)
 //@   ensures [termr] forall j int :: 0 <= j && j < len(usars) ==> usars[j].USARTrigger.Flags & report.USAR_TRIG_TERMR != 0
 //@   modifies s.PDRIDs[_].RelatedURRIDs, s.URRIDs[_].refPdrNum
 //@   reveal sessOK
